@@ -52,5 +52,5 @@ pub fn strategy() -> BoxedStrategy<Case> {
 }
 
 pub fn plan(tier: Tier) -> Plan<Case> {
-    Plan { strategy: strategy(), check, shrink_iters: 2000, decode_bytes: None, watchdog_secs: 0, cases: match tier { Tier::Quick => 24_000, Tier::Thorough => 1_000_000 } }
+    Plan { strategy: strategy(), check, shrink_iters: 2000, decode_bytes: None, watchdog_secs: 0, cases: match tier { Tier::Quick => 40_000, Tier::Thorough => 1_000_000 } }
 }
